@@ -107,6 +107,16 @@ def check(run, driver):
         if np.array_equal(A, B) and (tpr, fpr) != (1.0, 0.0):
             run.prop_fail("identical matrices must give (1,0)", case, {"fn": "Compute_TPR_FPR"}, [tpr, fpr])
 
+    # ---- history: same matrix objects refilled in place between two calls
+    from common import reuse_check
+    for it in range(20 if thorough else 8):
+        n = int(run.rng.integers(2, 9))
+        mk = lambda: tuple(np.where(np.eye(n) > 0, 0, (run.rng.random((n, n)) < run.rng.random()).astype(np.int64)) for _ in range(2))
+        first, second = mk(), mk()
+        if it % 2:
+            first, second = tuple(a.astype(float) for a in first), tuple(a.astype(float) for a in second)
+        run.case("history", [n, first[0].tolist(), second[1].tolist()], True)
+        reuse_check(run, "Compute_TPR_FPR", lambda a, b: tuple(float(v) for v in stats.Compute_TPR_FPR(a, b)), first, second, {"fn": "Compute_TPR_FPR", "clause": "purity"})
     # ---- AUC
     polys = []
     npoly = 2000 if thorough else 400
